@@ -361,3 +361,17 @@ pub fn input_ok(_prop: &str, plans: &[Plan]) -> bool {
         })
     })
 }
+
+/// The input thread must stay responsive: sitting in a join while other threads do tens of
+/// thousands of ticks of work is a hang from the GUI's point of view.
+pub fn check_input_blocked(rec: &RunRec, out: &mut Outcome) {
+    if rec.end == super::kernel::EndReason::InputBlocked {
+        out.violations.push(Violation::new(
+            "input_thread_blocked",
+            format!(
+                "the input thread was still blocked in a join after other threads did {} more work ticks",
+                super::kernel::EXIT_ALLOW_TICKS
+            ),
+        ));
+    }
+}
